@@ -272,6 +272,14 @@ func Main(args []string) int {
 		fmt.Fprintln(os.Stderr, "usage: vcheck <Cxx> [quick|thorough] [--replay file]")
 		return 2
 	}
+	if args[0] == "--bless" {
+		if err := Bless(VerifDir(), RepoDir()); err != nil {
+			fmt.Fprintln(os.Stderr, "vcheck: bless:", err)
+			return 2
+		}
+		fmt.Println("anchors.lock.json written for", RepoDir())
+		return 0
+	}
 	id := args[0]
 	p := Lookup(id)
 	if p == nil {
@@ -402,23 +410,49 @@ func runCheck(ctx *Ctx) int {
 			n = k
 		}
 	}
-	var cases []Case
+	// anchor drift: the code differs from the tree the check was validated on — not an
+	// alarm, but a reason to look harder (thorough generators, up to the thorough
+	// budget within a time cap; Extras may scale with ctx.Escalate).
+	drift := Drift(verif, ctx.Repo, p.ID)
+	genTier := ctx.Tier
+	driftBudget := time.Duration(0)
+	if len(drift) > 0 && ctx.Tier == "quick" && os.Getenv("VERIF_NO_DRIFT_ESCALATION") == "" {
+		genTier = "thorough"
+		ctx.Escalate = 10
+		ctx.Drift = drift
+		if p.Thorough > n {
+			n = p.Thorough
+		}
+		driftBudget = 150 * time.Second
+		if v := os.Getenv("VERIF_DRIFT_BUDGET_S"); v != "" {
+			if k, err := strconv.Atoi(v); err == nil && k > 0 {
+				driftBudget = time.Duration(k) * time.Second
+			}
+		}
+	}
+	var corpusCases []Case
 	if p.Corpus != nil {
 		for _, c := range p.Corpus() {
 			if c.Tag == "" {
 				c.Tag = "corpus"
 			}
-			cases = append(cases, c)
+			corpusCases = append(corpusCases, c)
 		}
 	}
-	if p.Gen != nil {
-		for i := 0; i < n; i++ {
+	nCases := 0
+	genBatch := func(k int) []Case {
+		var cs []Case
+		if p.Gen == nil {
+			return cs
+		}
+		for i := 0; i < k; i++ {
 			r := ctx.Rand.Fork()
 			st := r.State()
-			c := p.Gen(r, ctx.Tier)
+			c := p.Gen(r, genTier)
 			c.Seed = st
-			cases = append(cases, c)
+			cs = append(cs, c)
 		}
+		return cs
 	}
 
 	type found struct {
@@ -552,12 +586,29 @@ func runCheck(ctx *Ctx) int {
 	}
 
 	const batch = 20000
-	for i := 0; i < len(cases); i += batch {
-		j := i + batch
-		if j > len(cases) {
-			j = len(cases)
+	process(corpusCases, true)
+	nCases += len(corpusCases)
+	genStart := time.Now()
+	for done := 0; done < n; {
+		k := n - done
+		if k > batch {
+			k = batch
 		}
-		process(cases[i:j], true)
+		if driftBudget > 0 {
+			if k > 5000 {
+				k = 5000
+			}
+			if done >= p.Quick && time.Since(genStart) > driftBudget {
+				break
+			}
+		}
+		cs := genBatch(k)
+		process(cs, true)
+		done += k
+		nCases += k
+		if p.Gen == nil {
+			break
+		}
 	}
 
 	// ---- extras (own machinery per property)
@@ -605,7 +656,7 @@ func runCheck(ctx *Ctx) int {
 			for i := 0; i < n; i++ {
 				r := ctx.Rand.Fork()
 				st := r.State()
-				c := p.Gen(r, ctx.Tier)
+				c := p.Gen(r, genTier)
 				c.Seed = st
 				more = append(more, c)
 			}
@@ -686,9 +737,9 @@ func runCheck(ctx *Ctx) int {
 		"rule":                          p.Rule,
 		"samples":                       samples,
 		"distribution":                  distOut,
-		"correspondence_cases":          len(cases),
+		"correspondence_cases":          nCases,
 		"correspondence_mismatches":     mismatches,
-		"traces_validated_against_impl": len(cases) - mismatches,
+		"traces_validated_against_impl": nCases - mismatches,
 		"escalated_search_cases":        escalated,
 		"no_longer_checks":              lr.Broken,
 		"lean_stage_wall_s":             lr.WallS,
@@ -700,6 +751,10 @@ func runCheck(ctx *Ctx) int {
 		// would claim a proof that does not exist; keep only the generic counts.
 		delete(cov, "discharged")
 		cov["discharged_none"] = true
+	}
+	if len(drift) > 0 {
+		cov["anchor_drift"] = drift
+		cov["anchor_drift_note"] = "anchored source differs from the blessed tree (anchors.lock.json): thorough-tier generators and an enlarged budget were used; drift alone is never an alarm"
 	}
 	if lr.FactsNote != "" {
 		cov["facts"] = strings.TrimSpace(lr.FactsNote)
